@@ -77,7 +77,7 @@ def pack(data, name, how):
 # ----------------------------------------------------------------------------- oracle and runs
 def dump(path):
     """independent dump: list of (index, id | None, ts_ns | None, xml bytes | None)"""
-    rc, out, err = vlib.sh2([vlib.harness_bin("c10"), "dump", path], timeout=300)
+    rc, out, err = vlib.sh2([vlib.harness_bin("c10dump"), path], timeout=300)
     if rc != 0:
         return None
     rows = []
@@ -223,13 +223,15 @@ def run(ctx):
     vlib.proof_stage(ctx, PROP_FILE, ["nogen"], extra_targets=["Corr/C10.vo"])
     okh, log = vlib.build_harness("c10")
     if not okh:
-        ctx.obligation_broken("build", "harness c10", log)
+        # the in-process side (B1 map logic, B2 EvtxReader) is tied to s4lib's types; the oracle below is not
+        ctx.obligation_broken("build", "harness c10 (in-process EvtxReader / map logic against the current s4lib types)", log)
+    okd, logd = vlib.build_harness("c10dump")
     oks, logs = vlib.build_s4()
     if not oks:
         ctx.obligation_broken("build", "s4 binary", logs)
         return ctx.finish()
-    if not okh:
-        ctx.obligation_broken("oracle", "independent evtx dump unavailable (harness c10 does not build)", "")
+    if not okd:
+        ctx.obligation_broken("oracle", "independent evtx dump unavailable (harness c10dump does not build)", logd)
         return ctx.finish()
     stats = dict(b1_sequences=0, b1_disagreements=0, b2_reader_runs=0, b2_disagreements=0, binary_runs=0,
                  spec_failures=0, records_compared=0, files=0)
@@ -238,8 +240,10 @@ def run(ctx):
     seqs = gen_sequences(rng, 1200 if quick else 20000)
     lines = ["%s\t%s\t%s" % ("-" if lo is None else lo, "-" if hi is None else hi,
                              ",".join("x" if v is None else str(v) for v in seq)) for lo, hi, seq, _, _ in seqs]
-    outl, err = vlib.harness("c10", lines, timeout=900)
-    if outl is None or len(outl) != len(lines):
+    outl, err = vlib.harness("c10", lines, timeout=900) if okh else (None, "harness c10 does not build")
+    if not okh:
+        pass            # already reported as a broken build obligation
+    elif outl is None or len(outl) != len(lines):
         ctx.obligation_broken("correspondence", "harness c10 (map logic) run", err)
     else:
         rows = []
@@ -336,6 +340,9 @@ def run(ctx):
         if f["container"] == "plain":
             for lo, hi, w in f["windows"]:
                 jobs.append((f, lo, hi, w))
+
+    if not okh:
+        jobs = []       # no in-process EvtxReader without the harness
 
     def run_reader(job):
         f, lo, hi, w = job
